@@ -34,7 +34,7 @@ BUDGET = {'quick': 15, 'thorough': 150}
 
 K_QUOTED_COMMA = 'accept-quoted-comma-split'
 K_BACKSLASH = 'quoted-value-trailing-backslash-swallows-params'
-K_IOR = 'handlers-ior-skips-cache-clear'
+K_IOR_FAIL = 'handlers-ior-partial-failure-stale-cache'
 K_COPYCOPY = 'handlers-copycopy-shares-resolver'
 K_EMPTY_COPY = 'handlers-copy-of-empty-gets-defaults'
 
@@ -486,6 +486,51 @@ class ReKey(str):
     __eq__ = str.__eq__
 
 
+class Fault(Exception):
+    def __repr__(self):
+        return 'Fault()'
+
+
+def faulty_argument(form, pairs, n):
+    """An update()/|= argument that delivers n good items and then fails."""
+    if form == 'gen':
+        def g():
+            for p in pairs[:n]:
+                yield p
+            raise Fault()
+        return g()
+    if form == 'badpair':
+        return list(pairs[:n]) + [('not', 'a', 'pair')] + list(pairs[n:])
+    d = dict(pairs)
+    order = list(d)
+    if form == 'mapping':
+        import collections.abc
+
+        class FaultyMapping(collections.abc.Mapping):
+            def __iter__(self):
+                return iter(order + ['x/fault'])
+
+            def __len__(self):
+                return len(order) + 1
+
+            def __getitem__(self, k):
+                if k == 'x/fault' or order.index(k) >= n:
+                    raise Fault()
+                return d[k]
+        return FaultyMapping()
+    if form == 'keys':
+        class FaultyKeys:
+            def keys(self):
+                return order + ['x/fault']
+
+            def __getitem__(self, k):
+                if k == 'x/fault' or order.index(k) >= n:
+                    raise Fault()
+                return d[k]
+        return FaultyKeys()
+    raise ValueError(form)
+
+
 def tag_of(h):
     if h is M.NOT_FOUND or h is None:
         return h
@@ -570,7 +615,8 @@ class Live:
 
     def __init__(self, obj, model, origin='new', source=None):
         self.obj, self.model, self.origin, self.source = obj, model, origin, source
-        self.stale_snapshots = []      # model snapshots a resolver cache may still reflect after |= (known defect)
+        self.stale_snapshots = []      # (model snapshot, finding key): what a resolver cache may still reflect
+                                       # after a |= that failed part-way (recorded defect)
         self.prev_expect = {}
         self.dead = False
 
@@ -614,14 +660,14 @@ class History:
         eff = default if (not ct or ct == '*/*') else ct
         if M.has_quoted_comma(eff) and tag_of(M.resolve_model(live.model, ct, default, naive=True)) in (got_tag, None):
             return K_QUOTED_COMMA
-        for snap in live.stale_snapshots:
+        for snap, key in live.stale_snapshots:
             if tag_of(M.resolve_model(snap, ct, default)) == got_tag:
-                return K_IOR
+                return key
         if live.origin == 'copycopy' and live.source is not None:
             src = live.source          # copy.copy() shares the resolver closure, which is bound to the root object
             while src.origin == 'copycopy' and src.source is not None:
                 src = src.source
-            for snap in [src.model] + src.stale_snapshots:
+            for snap in [src.model] + [sn for sn, _ in src.stale_snapshots]:
                 if tag_of(M.resolve_model(snap, ct, default)) == got_tag:
                     return K_COPYCOPY
         return None
@@ -711,15 +757,44 @@ class History:
             both(obj.clear, model.clear)
         elif kind == 'ior':
             d = {k: self.new_handler(op[3]) for k in op[2]}
-            before = dict(model)
 
             def f():
                 o = obj
                 o |= d
                 return o is obj
-            both(f, lambda: model.update(d) or True)
-            live.stale_snapshots.append(before)
-            clears = False
+            both(f, lambda: model.update(d) or True)     # a completed |= invalidates like any other mutation
+        elif kind in ('update_fail', 'ior_fail'):
+            # a mutation that fails after it may have changed part of the mapping; the caller handles the error.
+            # op = [kind, i, keys, fast, form, n]: the argument yields n good pairs, then fails.
+            pairs = [(k, self.new_handler(op[3])) for k in op[2]]
+            n = min(op[5], len(pairs))
+            arg = faulty_argument(op[4], pairs, n)
+            before = dict(model)
+            try:
+                if kind == 'update_fail':
+                    obj.update(arg)
+                else:
+                    o = obj
+                    o |= arg
+                real = ('ok', None)
+            except Exception as ex:  # noqa
+                real = ('raised', type(ex).__name__ if op[4] == 'badpair' else repr(ex))
+            want = ('raised', real[1] if op[4] == 'badpair' else repr(Fault()))
+            rec.count('op.fail.' + op[4])
+            # how much was applied before the failure is the implementation's business (item by item: the
+            # first n; validate-first: none): any prefix is accepted and becomes the current mapping
+            items = [(k, id(v)) for k, v in obj.items()]
+            for k in range(n, -1, -1):
+                cand = dict(before)
+                cand.update(pairs[:k])
+                if [(a, id(b)) for a, b in cand.items()] == items:
+                    model.clear()
+                    model.update(cand)
+                    rec.count('op.fail.applied_%s' % ('some' if k else 'none'))
+                    break
+            if kind == 'ior_fail':
+                live.stale_snapshots.append((before, K_IOR_FAIL))
+                clears = False
         elif kind in ('copy', 'copycopy', 'or', 'ror'):
             clears = False
             try:
@@ -903,7 +978,7 @@ class History:
                           known_key=known)
 
     def classify_errser(self, live):
-        return K_IOR if live.stale_snapshots else (K_COPYCOPY if live.origin == 'copycopy' else None)
+        return None
 
     def run(self, ops, sweep_every=1):
         self.sweep(0)
@@ -941,23 +1016,38 @@ EX_OPS = [
     # resolutions issued from inside the mutating operation
     ['set', -1, K3[0], False, 're'], ['set', -1, K3[2], True, 're'], ['del', -1, K3[1], 're'],
     ['pop', -1, K3[0], False, 're'], ['update', -1, [K3[1], K3[2]], False, 'dict', 're'],
+    # mutations that fail after a partial change (the caller handles the error)
+    ['update_fail', -1, [K3[0], K3[2]], False, 'gen', 1], ['update_fail', -1, [K3[1], K3[0]], True, 'badpair', 1],
+    ['update_fail', -1, [K3[0], K3[1]], False, 'mapping', 1],
+    ['ior_fail', -1, [K3[0], K3[2]], False, 'gen', 1], ['ior_fail', -1, [K3[2], K3[1]], False, 'badpair', 1],
 ]
 ERRSER_ACCEPTS = ['application/json', 'text/plain', 'text/*;q=0.5, application/json;q=0.4', 'text/xml', 'image/png',
                   '*/*', 'text/plain;q=0, */*;q=0.1', 'application/xml;q=0.9, text/plain;q=0.9']
 
 
+# depth-3 programs (thorough) are enumerated over this core; depth 2 always uses the full alphabet
+EX_CORE = [o for o in EX_OPS if o in (
+    ['set', -1, K3[0], False], ['set', -1, K3[2], False], ['del', -1, K3[0]], ['del', -1, K3[1]],
+    ['update', -1, [K3[0], K3[2]], False, 'dict'], ['pop', -1, K3[0], False], ['popitem', -1],
+    ['setdefault', -1, K3[2], True], ['clear', -1], ['copy', -1], ['ior', -1, [K3[0]], False],
+    ['or', -1, [K3[2]], False], ['copycopy', -1], ['default', 'text/plain'], ['set', 0, K3[0], False],
+    ['set', -1, BAD_KEY, False], ['set', -1, K3[0], False, 're'], ['del', -1, K3[1], 're'],
+    ['update_fail', -1, [K3[0], K3[2]], False, 'gen', 1], ['update_fail', -1, [K3[1], K3[0]], True, 'badpair', 1],
+    ['ior_fail', -1, [K3[0], K3[2]], False, 'gen', 1])]
+
+
 def exhaustive_histories(rec, world):
-    depth = 2 if rec.tier == 'quick' else 3
+    plans = [(EX_OPS, 2)] if rec.tier == 'quick' else [(EX_OPS, 2), (EX_CORE, 3)]
     idx = 0
-    for L in range(1, depth + 1):
-        for ops in itertools.product(EX_OPS, repeat=L):
-            if L < depth:
-                continue             # shorter programs are prefixes of the longer ones (sweep after every op)
+    for alphabet, depth in plans:
+        # shorter programs are prefixes of the longer ones (there is a sweep after every op)
+        for ops in itertools.product(alphabet, repeat=depth):
             idx += 1
             if idx % rec.nshards != rec.shard:
                 continue
+            k = idx % len(ERRSER_ACCEPTS)
             h = History(rec, world, EX_INIT, 'application/json', EX_PROBES, public=True,
-                        errser_accept=ERRSER_ACCEPTS[idx % len(ERRSER_ACCEPTS):] + ERRSER_ACCEPTS[:idx % len(ERRSER_ACCEPTS)])
+                        errser_accept=ERRSER_ACCEPTS[k:] + ERRSER_ACCEPTS[:k])
             changed = h.run([list(o) for o in ops])
             rec.case(('hist', ops) if changed else None)
     rec.count('exh.histories', 1)
@@ -1011,6 +1101,10 @@ def gen_history(rng):
             ops.append([rng.choice(['or', 'ror']), t, rng.sample(keys, rng.choice([0, 1, 2])), fast])
         elif r < 0.87:
             ops.append(['copycopy', t])
+        elif r < 0.92:
+            ks = rng.sample(keys, rng.choice([1, 2, 3]))
+            ops.append([rng.choice(['update_fail', 'update_fail', 'ior_fail']), t, ks, fast,
+                        rng.choice(['gen', 'badpair', 'mapping', 'keys']), rng.randint(0, len(ks))])
         else:
             ops.append(['default', rng.choice(R_DEFAULTS + keys[:1])])
     for op in ops:
@@ -1036,7 +1130,7 @@ def run(rec):
     rec.rule = ('A: Accept headers = all 1..3-tuples over %d media-range atoms (11 ranges x q set) x 10 media types, '
                 'plus grammar-driven random headers (params, quoted params, q forms, OWS, duplicates, empty/invalid '
                 'members); non-trivial = at least two ranges match the media type (or the input is not grammar-valid); '
-                'distinct by (header, candidates).  B: all programs of the stated depth over %d mapping operations '
+                'distinct by (header, candidates).  B: all programs of depth 2 over %d mapping operations (thorough: also depth 3 over a 21-op core) '
                 '(exhaustive; incl. a key that is not a type/subtype pair and resolutions issued from inside a mutating operation via the __hash__ of a key) plus random programs up to 20 ops over 12+7 keys; resolutions after every op for all live '
                 'mappings; non-trivial = at least one resolution whose designated handler changed; distinct by program'
                 % (len(R_BASE) * len(Q_SET[rec.tier]), len(EX_OPS)))
@@ -1053,8 +1147,9 @@ def run(rec):
     exhaustive_histories(rec, world)
     rec.exhaustive = True
     if rec.shard == 0:
-        rec.note('exhaustive: headers of <=3 ranges over %d atoms; mapping programs of depth %d over %d ops'
-                 % (len(R_BASE) * len(Q_SET[rec.tier]), 2 if rec.tier == 'quick' else 3, len(EX_OPS)))
+        rec.note('exhaustive: headers of <=3 ranges over %d atoms; mapping programs of depth 2 over %d ops%s'
+                 % (len(R_BASE) * len(Q_SET[rec.tier]), len(EX_OPS),
+                    '' if rec.tier == 'quick' else ' and of depth 3 over a core of %d ops' % len(EX_CORE)))
         rec.note('exhaustive phases took %.1f s' % rec.elapsed())
     # random phases alternate until the budget is used; at least one round each
     rounds = 0
@@ -1085,6 +1180,7 @@ def run(rec):
                     ('chg.set', 20), ('chg.del', 20), ('chg.update', 10), ('chg.pop', 10), ('chg.popitem', 10),
                     ('chg.setdefault', 5), ('chg.clear', 10), ('chg.default', 10), ('chg.ior', 5),
                     ('op.copy', 10), ('op.copycopy', 5), ('op.or', 5),
+                    ('op.update_fail', 20), ('op.ior_fail', 10), ('op.fail.applied_some', 20), ('chg.update_fail', 10),
                     ('res.cls.bad-key', 200), ('res.cls.undecided', 5), ('res.reentrant', 500),
                     ('mon.mapping_state', 500), ('mon.errser', 100), ('errser.handler', 20), ('errser.builtin', 20),
                     ('errser.none_acceptable', 5)]:
